@@ -214,6 +214,7 @@ FIXED = [
     {'k': 'meta', 'stmts': ['Y = {a} * X["a"]'], 'var': 'Y = {a} * X ["a"]', 'strict': False, 'feats': ['sbi'], 'flags': ['space-before-index'], 'perm': None, 'skipfix': []},
     {'k': 'meta', 'stmts': ['Y[1] = X'], 'var': 'Y[ 1 ] = X', 'strict': True, 'feats': ['lhsinner'], 'flags': ['lhs-index-inner-space'], 'perm': None, 'skipfix': []},
     {'k': 'fence', 'stmts': ['Y = X', '```\nfoo = 1', 'Z = W'], 'flags': ['unclosed-fence']},
+    {'k': 's', 's': 'Y[=1]'},
     {'k': 'meta', 'stmts': ['C = {alpha_1} * YD + {alpha_2} * H[-1]'], 'var': 'C = ({ alpha_1 }[0] * YD[ 0 ] +\n     {alpha_2}*H[ -1 ])  # consumption',
      'strict': False, 'feats': ['ws', 'inner', 'zero', 'cont', 'comment'], 'flags': [], 'perm': None, 'skipfix': []},
     {'k': 'meta', 'stmts': ['Y = X + Z', 'W = Y[-1]'], 'var': '# model\n\nW = Y[-1]\n\n\nY = X + Z\n', 'strict': True, 'feats': ['blank'], 'flags': [], 'perm': [1, 0], 'skipfix': []},
@@ -528,6 +529,11 @@ def oracle(case, obs):
                     add('verbatim-preserved', 'the fragment %r of %r does not appear in the code %r' % (frag, st, code))
     # ---- the normal form is a fixed point
     for ent in obs.get('fix', []):
+        if '=' not in ent['eq']:
+            fails.append({'sig': 'C14|fixed-point|equation-without-equals',
+                          'what': 'the parser produced the normalised equation %r without "=" (an index bracket spanning the "=" of the statement); '
+                                  'fed back it is rejected — script %s' % (ent['eq'], json.dumps(case.get('s', ''))[:120])})
+            continue
         if 'exc' in ent:
             add('fixed-point', 're-parsing the normalised equation %r (fed as %r) raises %s' % (ent['eq'], ent['fed'], ent['exc']))
         elif ent['got'] != [ent['eq'], ent['code']]:
